@@ -32,10 +32,13 @@ VARIABLES l,        \* current log line
           floor,    \* highest TXID on the replica when lost/reset became true
           idleN,    \* number of consecutive idle syncs (no application step in between) so far
           idleNew,  \* level-0 files created by the idle syncs after the second one
+          t0,       \* log line of the current trace's Reset
+          lastAck,  \* log line of the last acknowledgement in this trace (t0 if none)
+          retained, \* a retention pass has run in this trace
           pendLoss, \* an in-flight litestream checkpoint has destroyed committed frames that no level-0 file covers (yet)
           sameSince,\* the same DB object was reopened while `lost`
           hz        \* shapes of known findings (known_findings.json "signature") seen so far in this trace
-vars == <<l, lost, reset, floor, idleN, idleNew, pendLoss, sameSince, hz>>
+vars == <<l, lost, reset, floor, idleN, idleNew, t0, lastAck, retained, pendLoss, sameSince, hz>>
 
 cur  == Log[l]
 prev == Log[l - 1]
@@ -49,6 +52,7 @@ IsLs(e)  == e.op \in {"LsOpen", "LsSync", "LsReplicaSync", "LsSyncAndWait", "LsC
 IsChk(e) == e.op \in {"LsCheckpoint", "CkStart", "CkStep"}
 ChkFailed(e) == IsChk(e) /\ e.res \notin {"ok", "skip", "at"}
 IsSync(e) == e.op \in {"LsSync", "LsSyncAndWait"}
+IsRetention(e) == e.op \in {"SnapRetention", "L0Retention", "RetByTXID", "Compact"}
 
 \* level-0 files litestream CREATED in a step (a baseline fetched from the replica by checkDatabaseBehindReplica is a copy, not a creation)
 Created(e) == SelectSeq(e.newl0, LAMBDA f : ~f.fetched)
@@ -66,12 +70,12 @@ Unsynced(k) ==
   /\ w.exists /\ w.commit > 0
   /\ IF w.gen = c.gen THEN w.commit > c.end ELSE TRUE
 
-Init == l = 1 /\ lost = FALSE /\ reset = FALSE /\ floor = 0 /\ idleN = 0 /\ idleNew = 0 /\ pendLoss = FALSE /\ sameSince = FALSE /\ hz = {}
+Init == l = 1 /\ lost = FALSE /\ reset = FALSE /\ floor = 0 /\ idleN = 0 /\ idleNew = 0 /\ t0 = 1 /\ lastAck = 1 /\ retained = FALSE /\ pendLoss = FALSE /\ sameSince = FALSE /\ hz = {}
 
 Next ==
   /\ l < Len(Log) /\ l' = l + 1
   /\ LET e == Log[l + 1]  p == Log[l] IN
-     IF e.op = "Reset" THEN lost' = FALSE /\ reset' = FALSE /\ floor' = 0 /\ idleN' = 0 /\ idleNew' = 0 /\ pendLoss' = FALSE /\ sameSince' = FALSE /\ hz' = {}
+     IF e.op = "Reset" THEN lost' = FALSE /\ reset' = FALSE /\ floor' = 0 /\ idleN' = 0 /\ idleNew' = 0 /\ t0' = l + 1 /\ lastAck' = l + 1 /\ retained' = FALSE /\ pendLoss' = FALSE /\ sameSince' = FALSE /\ hz' = {}
      ELSE
        LET genChanged == e.wal.gen # p.wal.gen \/ ~e.wal.exists
            chkLoss   == IsChk(e) /\ genChanged /\ Unsynced(l)        \* litestream's own PRAGMA removed frames it had not copied
@@ -89,6 +93,9 @@ Next ==
        IN /\ lost'  = (lost0 \/ destroyed)
           /\ reset' = (reset0 \/ stateLost)
           /\ floor' = IF (destroyed \/ stateLost) /\ ~lost0 /\ ~reset0 THEN p.rpos ELSE floor
+          /\ t0' = t0
+          /\ lastAck' = IF e.ack THEN l + 1 ELSE lastAck
+          /\ retained' = (retained \/ (e.op \in {"SnapRetention", "L0Retention", "RetByTXID"} /\ e.res # "skip"))
           /\ pendLoss' = IF IsChk(e) THEN (IF e.res = "at" THEN (pendLoss \/ chkLoss) ELSE FALSE) ELSE pendLoss
           /\ sameSince' = IF Len(Created(e)) > 0 THEN FALSE
                            ELSE (IF Len(Created(p)) > 0 THEN FALSE ELSE sameSince) \/ (e.op = "LsOpen" /\ e.arg = "same" /\ e.res = "ok" /\ lost0)
@@ -131,12 +138,14 @@ Matches(a, t, from) == {k \in Ledger(t) : k >= from /\ SameExcept(a.state, Log[k
 RECURSIVE MonoOK(_, _, _, _)
 MonoOK(au, j, t, from) ==
   IF j > Len(au) THEN TRUE
+  ELSE IF ~au[j].ok THEN MonoOK(au, j + 1, t, from)      \* not reachable (only tolerated after retention, see below)
   ELSE LET m == Matches(au[j], t, from) IN
        /\ m # {}
        /\ MonoOK(au, j + 1, t, CHOOSE k \in m : \A k2 \in m : k <= k2)
+\* (after a retention pass a listed TXID may legitimately be unreachable: its lower files are gone)
 C02_EveryTxidIsACommittedState_ ==
-  (cur.op = "Audit") => /\ \A j \in 1..Len(cur.audit) : cur.audit[j].ok
-                        /\ MonoOK(cur.audit, 1, cur.t, 1)
+  (Len(cur.audit) > 0) => /\ (~retained => \A j \in 1..Len(cur.audit) : cur.audit[j].ok)
+                          /\ MonoOK(cur.audit, 1, cur.t, 1)
 L0Of(files) == {files[j][3] : j \in {k \in 1..Len(files) : files[k][1] = 0}}
 C02_Level0Gapless_ ==
   IsStep => /\ \A j \in 1..Len(cur.remote) : cur.remote[j][1] = 0 => cur.remote[j][2] = cur.remote[j][3]
@@ -157,11 +166,75 @@ C14_SameAsControlRun_ == (IsStep /\ cur.ctl # -1) => cur.app = cur.ctl
 C14_BookkeepingOnly_ == IsStep => (cur.lockN \in {0, -1} /\ cur.integ = "ok" /\ (cur.seqPg # 0 => cur.journal = "wal"))
 
 -----------------------------------------------------------------------------
+(* Replica layer: C05 (storage faults), C06 (compaction), C07 (retention).  Files are what the recorder decoded from *)
+(* the replica directory (newrem: files that appeared or changed in a step).                                          *)
+ToSet(sq) == {sq[i] : i \in DOMAIN sq}
+RemSeen == UNION {ToSet(Log[k].newrem) : k \in t0..l}              \* every replica file ever observed in this trace
+Pairs(f) == {<<f.pgs[i], f.ids[i]>> : i \in DOMAIN f.pgs}
+PgSet(f) == {f.pgs[i] : i \in DOMAIN f.pgs}
+L0Known(n) == \E f \in RemSeen : f.lvl = 0 /\ f.min = n /\ f.max = n /\ f.err = "none"
+L0At(n) == CHOOSE f \in RemSeen : f.lvl = 0 /\ f.min = n /\ f.max = n /\ f.err = "none"
+RECURSIVE ComposeRange(_, _)
+ComposeRange(a, b) == IF a > b THEN {}
+                      ELSE LET base == ComposeRange(a, b - 1)  f == L0At(b)
+                           IN {p \in base : p[1] \notin PgSet(f) /\ p[1] <= f.commit} \cup Pairs(f)
+FilesAt(files, lvl) == {files[j] : j \in {k \in 1..Len(files) : files[k][1] = lvl}}
+HasSnap(e) == FilesAt(e.remote, 9) # {}
+
+\* C06: a compacted file covering a..b = the level-0 files a..b applied in order (pages, size, newest input's time)
+C06_CompactedEqualsInputs_ ==
+  IsStep => \A f \in ToSet(cur.newrem) :
+     (f.lvl \in 1..9 /\ f.err = "none" /\ \A n \in f.min..f.max : L0Known(n)) =>
+        /\ Pairs(f) = ComposeRange(f.min, f.max)
+        /\ f.commit = L0At(f.max).commit
+        /\ (f.lvl \in 1..8 => f.ts = L0At(f.max).ts)
+C06_NoCorruptFile_ == IsStep => \A f \in ToSet(cur.newrem) : f.err = "none"
+\* C06: files within a level are contiguous and non-overlapping; each compaction starts where the previous one ended
+\* (claimed for histories without retention passes and without storage faults)
+C06_LevelsContiguous_ ==
+  (IsStep /\ ~retained /\ ~cur.cfg.faults) =>
+     \A lvl \in 1..8 : LET fs == FilesAt(cur.remote, lvl) IN
+        /\ \A f \in fs : (f[2] = 1 \/ \E g \in fs : g[3] + 1 = f[2])
+        /\ \A f \in fs : \A g \in fs : (f # g) => (f[3] < g[2] \/ g[3] < f[2])
+
+\* the restored database is one of the recorded committed states, not older than the last acknowledged one
+RestoredIsCommitted(e, from) ==
+  \E k \in from..l : Log[k].op # "Audit" /\ SameExcept(e.rest.state, Log[k].src, Log[k].seqPg) /\ e.rest.app = Log[k].app
+\* C07: retention never deletes what the latest restore needs
+C07_LatestStillRestorable_ ==
+  (IsStep /\ IsRetention(cur) /\ cur.rest.done) => (cur.rest.ok /\ RestoredIsCommitted(cur, lastAck))
+C07_SnapshotKept_ == (IsStep /\ HasSnap(prev)) => HasSnap(cur)
+C07_Level0OneRun_ ==
+  IsStep => LET ids == L0Of(cur.remote) IN ids = {} \/ \A a \in ids : \A b \in a..cur.rpos : b \in ids
+
+\* C05: transient storage failures never leave gaps or false acknowledgements
+NoFaultIn(e) == e.faultsLeft = 0 /\ \A i \in DOMAIN e.calls : e.calls[i] \notin {"FAULT:list", "FAULT:open", "FAULT:openmid",
+                    "FAULT:write-before", "FAULT:write-partial", "FAULT:write-after", "FAULT:delete-before", "FAULT:delete-after"}
+C05_Level0Gapless_ == C07_Level0OneRun_
+C05_AckMeansStored_ == (IsStep /\ cur.ack) => (cur.lpos > 0 /\ cur.rpos = cur.lpos /\ cur.rest.ok
+                                                /\ SameExcept(cur.rest.state, cur.src, cur.seqPg) /\ cur.rest.app = cur.app)
+C05_AlwaysRestorable_ == (IsStep /\ cur.rest.done /\ Len(cur.remote) > 0) => (cur.rest.ok /\ RestoredIsCommitted(cur, t0))
+\* once failures stop the replica catches up: the second of two consecutive fault-free SyncAndWait calls succeeds
+C05_CatchesUp_ ==
+  (IsStep /\ cur.op = "LsSyncAndWait" /\ prev.op = "LsSyncAndWait" /\ NoFaultIn(cur) /\ NoFaultIn(prev)
+          /\ prev.faultsLeft = 0 /\ cur.res # "skip") => cur.ack
+
+-----------------------------------------------------------------------------
 \* A false invariant is reported as a VERDICT line and evaluation continues; the shapes of known findings present in
 \* the trace are printed with it (HAZARD lines) so that the runner can tell a listed finding from a new violation.
 V(name, ok) == ok \/ (/\ PrintT(<<"VERDICT", name, l, cur.t, cur.i>>)
                       /\ \A h \in hz : PrintT(<<"HAZARD", h, l, cur.t, cur.i>>))
 
+C06_CompactedEqualsInputs == V("C06_CompactedEqualsInputs", C06_CompactedEqualsInputs_)
+C06_NoCorruptFile == V("C06_NoCorruptFile", C06_NoCorruptFile_)
+C06_LevelsContiguous == V("C06_LevelsContiguous", C06_LevelsContiguous_)
+C07_LatestStillRestorable == V("C07_LatestStillRestorable", C07_LatestStillRestorable_)
+C07_SnapshotKept == V("C07_SnapshotKept", C07_SnapshotKept_)
+C07_Level0OneRun == V("C07_Level0OneRun", C07_Level0OneRun_)
+C05_Level0Gapless == V("C05_Level0Gapless", C05_Level0Gapless_)
+C05_AckMeansStored == V("C05_AckMeansStored", C05_AckMeansStored_)
+C05_AlwaysRestorable == V("C05_AlwaysRestorable", C05_AlwaysRestorable_)
+C05_CatchesUp == V("C05_CatchesUp", C05_CatchesUp_)
 C01_RestoreEqualsSource == V("C01_RestoreEqualsSource", C01_RestoreEqualsSource_)
 C01_RestoreIntegrity == V("C01_RestoreIntegrity", C01_RestoreIntegrity_)
 C04_AckMeansReplicaAtLocalPos == V("C04_AckMeansReplicaAtLocalPos", C04_AckMeansReplicaAtLocalPos_)
